@@ -39,7 +39,7 @@ def hexBytes (s : String) : Option Bytes :=
   go s.toList #[]
 
 def fnv64 (b : Bytes) : Nat :=
-  b.foldl (fun h x => ((h ^^^ x) * 1099511628211) % 18446744073709551616) 14695981039346656037
+  (b.foldl (fun (h : UInt64) x => (h ^^^ x.toUInt64) * 1099511628211) 14695981039346656037).toNat
 
 def extStr (n : Name) : String :=
   (if n.full then "fs" else "deltafs") ++ (if n.gz then "z" else "")
